@@ -633,6 +633,7 @@ def run(ctx, rep):
             K.CONN, "rpyc.core.channel.Channel", "rpyc.core.async_.AsyncResult")):
         H.private_state(ctx, rep, "R16.3", cq_)
     _signal_shared_state(ctx, rep)
+    _no_select_on_client_sockets(ctx, rep)
 
 
 def _signal_shared_state(ctx, rep):
@@ -697,3 +698,54 @@ def _signal_shared_state(ctx, rep):
            "the stale entry counts against every later client" % (
                bad[0][0], bad[0][1].name, bad[0][2].name, A.src(bad[0][3])[:50]), ctx.loc(bad[0][3]) if bad else SRV.replace(".", "/") + ".py",
            kind="site")
+
+
+def _select_calls(ctx, modname):
+    """call sites in a module that reach select(2): `select.select(...)`, `select_module.select(...)` or the name `select` that
+    rpyc.lib.compat exports"""
+    m = ctx.repo.modules.get(modname)
+    out = []
+    if m is None:
+        return out
+    for c in [x for x in ast.walk(m.tree) if isinstance(x, ast.Call)]:
+        d = A.call_name(c) or ""
+        head, _, last = d.rpartition(".")
+        if last != "select":
+            continue
+        if head:
+            tgt = m.imports.get(head.split(".")[0], "")
+            if tgt in ("select",) or head in ("select_module",):
+                out.append(c)
+        else:
+            tgt = m.imports.get("select", "")
+            if tgt in ("select.select", "rpyc.lib.compat.select") or (modname == "rpyc.lib.compat" and "select" not in A.params(
+                    A.enclosing(c, (ast.FunctionDef,)) or ast.parse("def f(): pass").body[0])):
+                out.append(c)
+    return out
+
+
+def _no_select_on_client_sockets(ctx, rep):
+    """R16.7: a server process holds one descriptor per client; select(2) cannot watch a descriptor >= FD_SETSIZE (1024) - it
+    raises ValueError - so with about a thousand (idle, well-behaved or not) clients every further connection would fail. The
+    stream, channel, connection and server layers wait through the poll object of rpyc.lib.compat (poll(2) where the platform has
+    it); select() is called only inside compat's fallback poll object (and the standalone reactor)."""
+    rep.rule("R16.7", "client sockets are waited for through compat.poll (poll(2)); select(2), limited to descriptors < 1024, is "
+                      "called only by compat's fallback")
+    ref = _select_calls(ctx, "rpyc.lib.compat")
+    rep.floor("R16.7", "select() call sites recognised in rpyc.lib.compat (scanner self-check)", len(ref), 1)
+    bad = []
+    n_mod = 0
+    for mn in ("rpyc.core.stream", "rpyc.core.channel", "rpyc.core.protocol", "rpyc.utils.server", "rpyc.core.async_",
+               "rpyc.utils.factory", "rpyc.utils.helpers"):
+        if mn in ctx.repo.modules:
+            n_mod += 1
+            bad += [(mn, c) for c in _select_calls(ctx, mn)]
+    rep.floor("R16.7", "modules of the connection / server layers scanned", n_mod, 5)
+    fp = ctx.func("rpyc.core.stream.Stream.poll")
+    uses_poll = [c for c in A.calls(fp.node) if A.call_name(c) == "poll"]
+    rep.ob("R16.7", "Stream.poll waits through a compat.poll() object", bool(uses_poll),
+           "`%s`" % A.src(uses_poll[0]) if uses_poll else "Stream.poll no longer builds a poll object", fp.loc, kind="site")
+    rep.ob("R16.7", "no select() on client descriptors in the stream / connection / server layers", not bad,
+           "%d modules scanned" % n_mod if not bad else
+           "%s calls `%s`: select() raises ValueError for a descriptor >= 1024, i.e. for every client accepted while about a "
+           "thousand others are connected" % (bad[0][0], A.src(bad[0][1])[:60]), ctx.loc(bad[0][1]) if bad else None, kind="site")
